@@ -675,6 +675,10 @@ fn family_prop(ctx: &RunCtx, fams: &[&str]) -> i32 {
     let e2e = fams.contains(&"e2e");
     let k = fams.len() as u64;
     let agg = run_parallel(prop, n, &ctx.known, |i| {
+        if prop == "C01" && i == 0 {
+            // one long connection: more round trips than any 16-bit id space has ids
+            return misc::c01_long_run_ids(if thorough { 300_000 } else { 70_000 });
+        }
         if (prop == "C07" || prop == "C18") && (1..=192).contains(&i) {
             // a retried call keeps the caller's deadline and trace on every attempt (Retry stub),
             // whatever made the earlier attempts fail
